@@ -76,8 +76,11 @@ def real_modules():
 
 def real_select(messages, mods):
     from senaite.astm import wrapper
-    w = wrapper.Wrapper(list(messages))
-    mp = w.mapping
+    try:
+        w = wrapper.Wrapper(list(messages))
+        mp = w.mapping
+    except Exception as exc:  # noqa
+        return "raises-" + type(exc).__name__
     if mp is wrapper.DEFAULT_MAPPING:
         return "generic"
     for name, mod in mods.items():
